@@ -53,6 +53,8 @@ def mode_machine(p):
 
 def mode_none_limit(p):
     from bob.learn.em import GMMMachine
+    if p.get("skip_known"):
+        return {"reproduced": False, "cases": 0, "note": "this scenario IS the recorded finding KF-H5-NONE"}
     m = mk_gmm(2, 2, 0, max_fitting_steps=None)
     with tempfile.TemporaryDirectory() as d:
         try:
@@ -60,7 +62,7 @@ def mode_none_limit(p):
             r = GMMMachine.from_hdf5(os.path.join(d, "m.hdf5"))
             ok = r.max_fitting_steps is None
         except TypeError as e:
-            return {"reproduced": True, "what": "save() of a machine without an iteration cap raises TypeError: %s" % e}
+            return {"reproduced": True, "known_finding": "KF-H5-NONE", "what": "save() of a machine without an iteration cap raises TypeError: %s" % e}
     return {"reproduced": not ok, "cases": 1}
 
 
